@@ -8,6 +8,8 @@
     1  the oSQTH/WETH pool the Squeeth market trades with — the `positions` of `Demeter.Squeeth.State` (the container both markets share)
     2  the Squeeth market                               — the `vaults` of the same `Demeter.Squeeth.State`, operations `Demeter.Squeeth.step`
     3  a GMX v1 market (GLP shares + accrued reward)    — `Demeter.GmxV1.State`, operations `Demeter.GmxV1.step`, `update()` = reward accrual
+    4  a Deribit option market (cash + options)         — `Demeter.Deribit.DState`, operations `Demeter.Deribit.step`, `update()` = expiry;
+       its `get_market_balance` WRITES a cache (`_balance_cache`): the account-row call itself changes the market (`Ev.row`)
   Every market model carries "the" broker wallet as a field of its own state; here there is ONE wallet (`World.wallet`): it is put into a
   market's state before that market's transition runs and taken out of it afterwards.
 
@@ -24,6 +26,7 @@ import Demeter.Uni.Step
 import Demeter.Uni.Fee
 import Demeter.Squeeth.Views
 import Demeter.GmxV1
+import Demeter.Deribit.Run
 namespace Demeter.Core
 
 structure Setup where
@@ -41,6 +44,10 @@ structure Setup where
   gmxEnv : Option Int → GmxV1.Env := fun _ => ⟨[], [], 0, 0, 0, 0, 0, 0⟩   -- market 3's data row, by source row
   gmxOp : String → Option GmxV1.Op := fun _ => none                        -- what a label issued on market 3 stands for
   gmxQuote : String := "USD"              -- `GmxMarket.quote_token` (the `Market` default)
+  derCx : Deribit.DCtx := Deribit.DCtx.ideal ⟨id, fun x => x⟩     -- market 4: arithmetic (Decimal + float parts)
+  derCfg : Deribit.TokenCfg := Deribit.ethCfg                      -- market 4: token configuration; `quote_token` = its token
+  derBar : Int → Option Int → Deribit.Bar := fun ts _ => ⟨ts / 60, false, [], 0, false, []⟩   -- what the frames give market 4 at a bar
+  derOp : String → Option Deribit.Op := fun _ => none              -- what a label issued on market 4 stands for
 
 structure World where
   wallet : Wallet
@@ -49,6 +56,7 @@ structure World where
   env : Squeeth.Env          -- the current status of markets 1 and 2
   gmx : GmxV1.State := ⟨0, 0, [], []⟩                      -- market 3 (its `wallet` field: scratch copy, as above)
   genv : GmxV1.Env := ⟨[], [], 0, 0, 0, 0, 0, 0⟩           -- the current status of market 3
+  der : Deribit.DState := ⟨0, [], [], [], false, [], none, false, 0, 0, false⟩   -- market 4 (its `wallet` field: scratch copy)
 
 /-- market 0 as its methods see it: with the broker's wallet -/
 def World.uniIn (w : World) : Uni.State := { w.uni with wallet := w.wallet }
@@ -62,6 +70,14 @@ def World.gmxIn (w : World) : GmxV1.State := { w.gmx with wallet := w.wallet }
 def gmxCall (S : Setup) (w : World) (op : GmxV1.Op) : World :=
   let r := GmxV1.step S.cx w.genv w.gmxIn op
   { w with wallet := r.2.wallet, gmx := r.2 }
+
+/-- market 4 as its methods see it -/
+def World.derIn (w : World) : Deribit.DState := { w.der with wallet := w.wallet }
+
+/-- an operation on market 4 -/
+def derCall (S : Setup) (w : World) (op : Deribit.Op) : World :=
+  let r := Deribit.step S.derCx S.derCfg w.derIn op
+  { w with wallet := r.2.wallet, der := r.2 }
 
 /-- an operation on market 0 -/
 def uniCall (S : Setup) (w : World) (tag : String) : World :=
@@ -82,6 +98,10 @@ def opCall (S : Setup) (w : World) (m : Nat) (tag : String) : World :=
     match S.gmxOp tag with
     | none => w
     | some op => gmxCall S w op
+  else if m = 4 then
+    match S.derOp tag with
+    | none => w
+    | some op => derCall S w op
   else match S.sqOp tag with
     | none => w
     | some op => sqCall S w op
@@ -100,6 +120,7 @@ def setCall (S : Setup) (w : World) (ts : Int) (m : Nat) (isOpen : Bool) (src : 
     match src with
     | some _ => { w with genv := S.gmxEnv src }
     | none => w
+  else if m = 4 then { w with der := Deribit.setStatus w.der { S.derBar ts src with flagOpen := isOpen } }
   else
     match src with
     | some _ => { w with env := { S.sqEnv src with uniPrice := w.env.uniPrice, uniOpen := w.env.uniOpen } }
@@ -110,6 +131,8 @@ def updCall (S : Setup) (w : World) (m : Nat) : World :=
   if m = 0 then { w with uni := (Uni.update S.K.cx S.pool w.uni).1 }       -- fee accrual (wallet untouched)
   else if m = 2 then sqCall S w .update                                      -- liquidation of unsafe vaults
   else if m = 3 then gmxCall S w .update                                     -- reward accrual (wallet untouched)
+  else if m = 4 then { w with wallet := (Deribit.update S.derCx S.derCfg w.derIn).wallet,
+                              der := Deribit.update S.derCx S.derCfg w.derIn }           -- expiry: settlement of due options
   else w
 
 /-- what a call of the trace does to wallet and markets -/
@@ -119,17 +142,20 @@ def marketsEff (S : Setup) : Ev → World → World
   | .opOk _ _ m tag, w => opCall S w m tag
   | .opRej _ _ m tag false, w => opCall S w m tag      -- the market's own logic raised: the state is what the failing call left behind
   | .opFree _ _ m tag _, w => opCall S w m tag
+  | .row _ _, w => { w with der := (Deribit.getMarketBalance S.derCx S.derCfg w.derIn).2 }   -- the valuation fills market 4's cache
   | _, w => w                                          -- hook calls, the gate's refusal on a closed market, `uact` (recorded by `update`), rows, notify
 
 /-- a market's `get_market_balance().net_value`; an exception is NOT a value: the theorems carry the guard "the call returns" -/
 def nvOfUni (r : Except Uni.Err Uni.Balance) : Rat := match r with | .ok b => b.netValue | .error _ => 0
 def nvOfSq (r : Except Squeeth.Err Squeeth.Balance) : Rat := match r with | .ok b => b.netValue | .error _ => 0
+def nvOfDer (r : Deribit.Outcome) : Rat := match r with | .ok (.balance (some b)) => b.netValue | _ => 0
 
 def marketsBalances (S : Setup) (w : World) : List MarketNV :=
   [⟨"uni", S.pool.quoteTok, nvOfUni (Uni.getMarketBalance S.K S.pool w.uniIn)⟩,
    ⟨"squeeth-pool", Gen.sqWethName, Squeeth.uniNetValue S.cx w.env w.sqIn⟩,
    ⟨"squeeth", S.sqQuote, nvOfSq (Squeeth.marketBalance S.cx w.env w.sqIn)⟩,
-   ⟨"gmx", S.gmxQuote, GmxV1.netValue S.cx w.genv w.gmxIn⟩]
+   ⟨"gmx", S.gmxQuote, GmxV1.netValue S.cx w.genv w.gmxIn⟩,
+   ⟨"deribit", S.derCfg.token, nvOfDer (Deribit.getMarketBalance S.derCx S.derCfg w.derIn).1⟩]
 
 /-- the concrete interpretation -/
 def marketsValuation (S : Setup) : Valuation World :=
@@ -147,6 +173,8 @@ def callOk (S : Setup) (w : World) (m : Nat) (tag : String) : Option Bool :=
     (S.uniOp tag).map fun op => match (Uni.step S.K S.pool S.minError w.uniIn op).1 with | .ok _ => true | .error _ => false
   else if m = 3 then
     (S.gmxOp tag).map fun op => match (GmxV1.step S.cx w.genv w.gmxIn op).1 with | .ok _ => true | .error _ => false
+  else if m = 4 then
+    (S.derOp tag).map fun op => match (Deribit.step S.derCx S.derCfg w.derIn op).1 with | .ok _ => true | .error _ => false
   else
     (S.sqOp tag).map fun op => (Squeeth.step S.cx w.env w.sqIn op).err.isNone
 
